@@ -98,34 +98,44 @@ def to_line(scn):
 # ---------------------------------------------------------------------------
 # connections under another uid / group set
 # ---------------------------------------------------------------------------
-def socket_as(path, uid, gids):
+def socket_as(path, uid, gids, attempts=4):
     """connect to `path` from a forked child that first drops to (uid, gids); the connected socket comes back over a socketpair"""
-    a, b = socket.socketpair(socket.AF_UNIX, socket.SOCK_STREAM)
-    pid = os.fork()
-    if pid == 0:
+    why = ""
+    for attempt in range(attempts):
+        a, b = socket.socketpair(socket.AF_UNIX, socket.SOCK_STREAM)
+        pid = os.fork()
+        if pid == 0:
+            try:
+                a.close()
+                os.setgroups(list(gids))
+                os.setresgid(gids[0], gids[0], gids[0])
+                os.setresuid(uid, uid, uid)
+                s = socket.socket(socket.AF_UNIX, socket.SOCK_STREAM)
+                s.connect(path)
+                b.sendmsg([b"x"], [(socket.SOL_SOCKET, socket.SCM_RIGHTS, array.array("i", [s.fileno()]))])
+            except BaseException as e:
+                try:
+                    b.sendall(("E" + repr(e)).encode()[:200])
+                except BaseException:
+                    pass
+            finally:
+                os._exit(0)
+        b.close()
+        a.settimeout(30)
         try:
-            a.close()
-            os.setgroups(list(gids))
-            os.setresgid(gids[0], gids[0], gids[0])
-            os.setresuid(uid, uid, uid)
-            s = socket.socket(socket.AF_UNIX, socket.SOCK_STREAM)
-            s.connect(path)
-            b.sendmsg([b"x"], [(socket.SOL_SOCKET, socket.SCM_RIGHTS, array.array("i", [s.fileno()]))])
-        except BaseException:
-            pass
+            data, anc, _, _ = a.recvmsg(256, socket.CMSG_LEN(4))
+        except OSError as e:
+            data, anc = b"E" + repr(e).encode(), []
         finally:
-            os._exit(0)
-    b.close()
-    try:
-        data, anc, _, _ = a.recvmsg(1, socket.CMSG_LEN(4))
-    finally:
-        os.waitpid(pid, 0)
-        a.close()
-    if not anc:
-        raise IOError("could not connect as uid %d" % uid)
-    fd = array.array("i")
-    fd.frombytes(anc[0][2][:4])
-    return socket.socket(fileno=fd[0])
+            os.waitpid(pid, 0)
+            a.close()
+        if anc:
+            fd = array.array("i")
+            fd.frombytes(anc[0][2][:4])
+            return socket.socket(fileno=fd[0])
+        why = data.decode("latin-1", "replace")
+        time.sleep(0.02 * (attempt + 1))     # the socket file exists before the daemon listens: ECONNREFUSED in that window
+    raise IOError("could not connect as uid %d after %d attempts: %s" % (uid, attempts, why))
 
 
 class UidConn(RawConn):
@@ -398,11 +408,24 @@ def gen_scenario(rnd, quick=True):
     if rnd.random() < 0.75:
         first.append([True, rnd.choice(([["own", "*"]], [["own_prefix", "com.ex"]], [["own_prefix", "com.ex.A"]]))])
     inv = 0.02 if rnd.random() < 0.15 else 0.0
+    # which names will be requested by whom (queues: the first requester is the primary owner if its policy lets it)
+    plan = []
+    for i in range(nconn):
+        for _ in range(rnd.choice((0, 1, 1, 2))):
+            plan.append((i, rnd.choice(NAMES[:2] + NAMES)))
+    queued = [(n, i) for k, (i, n) in enumerate(plan) if any(n2 == n and i2 != i for (i2, n2) in plan[:k])]
     elems = [["d", first + [gen_rule(rnd, nconn, inv) for _ in range(rnd.randint(0, 3))]]]
     for _ in range(rnd.randint(1, 5)):
         ctx = rnd.choice(["d", "m", "m", "u%d" % rnd.choice(uids), "u%d" % rnd.choice(list(USERS)), "g%d" % rnd.choice(gids),
                           "g%d" % rnd.choice(list(GROUPS)), "cf", "ct", "i"])
-        elems.append([ctx, [gen_rule(rnd, nconn, inv) for _ in range(rnd.randint(0, 4))]])
+        rules = [gen_rule(rnd, nconn, inv) for _ in range(rnd.randint(0, 4))]
+        if queued and rnd.random() < 0.35:
+            # a rule about a name that has a queue: it must also apply to the queued owners
+            n, _ = rnd.choice(queued)
+            allow = rnd.random() < 0.5
+            rules.insert(rnd.randint(0, len(rules)), [allow, rnd.choice(([["send_destination", n]], [["receive_sender", n]],
+                                                                         [["send_destination_prefix", n.rsplit(".", 1)[0]]]))])
+        elems.append([ctx, rules])
     ops = [["C", u, g] for u, g in idents]
     serial = [1000] * nconn
     calls = []   # (caller, callee, serial) of method calls to peers: candidates for requested replies
@@ -418,10 +441,10 @@ def gen_scenario(rnd, quick=True):
         r = rnd.random()
         if r < 0.4: ops.append(drv(i, "AddMatch", MATCH_SIG, rnd.random() < 0.8))
         elif r < 0.75: ops.append(drv(i, "AddMatch", MATCH_EAV, rnd.random() < 0.8))
-        for _ in range(rnd.choice((0, 1, 1, 2))):
-            n = rnd.choice(NAMES)
-            ops.append(drv(i, "RequestName", n, rnd.random() < 0.8))
-            owners.setdefault(n, []).append(i)
+        for (j, n) in plan:
+            if j == i:
+                ops.append(drv(i, "RequestName", n, rnd.random() < 0.8))
+                owners.setdefault(n, []).append(i)
     for _ in range(rnd.randint(8, 14) if quick else rnd.randint(12, 24)):
         s = rnd.randrange(nconn)
         r = rnd.random()
@@ -435,7 +458,15 @@ def gen_scenario(rnd, quick=True):
         ty = rnd.choice((METHOD_CALL, METHOD_CALL, METHOD_CALL, SIGNAL, SIGNAL, METHOD_RETURN, METHOD_RETURN, ERROR))
         m = {"type": ty, "serial": nxt(s)}
         r = rnd.random()
-        if ty == SIGNAL and r < 0.45:
+        if queued and r < 0.2:
+            # to (or from) a queued, non-primary owner of a name, by its unique name
+            n, qi = rnd.choice(queued)
+            if rnd.random() < 0.3:
+                s, m = qi, {"type": ty, "serial": nxt(qi)}
+                dest = ":1.%d" % rnd.randrange(nconn)
+            else:
+                dest = ":1.%d" % qi
+        elif ty == SIGNAL and r < 0.45:
             dest = None
         elif r < 0.5:
             dest = ":1.%d" % rnd.randrange(nconn)
@@ -454,11 +485,17 @@ def gen_scenario(rnd, quick=True):
         if ty == ERROR or rnd.random() < 0.08: m["error"] = rnd.choice(ERRORS)
         if ty in (METHOD_RETURN, ERROR) or rnd.random() < 0.12:
             cands = [c for c in calls if c[1] == s]
-            if cands and rnd.random() < 0.7:
+            r2 = rnd.random()
+            if cands and r2 < 0.65:
                 c = rnd.choice(cands)
                 m["reply_serial"] = c[2]
                 if rnd.random() < 0.8:
                     m["dest"] = ":1.%d" % c[0]
+            elif calls and r2 < 0.8:
+                # a reply to somebody else's call (a third party answering): must count as unrequested
+                c = rnd.choice(calls)
+                m["reply_serial"] = c[2]
+                m["dest"] = ":1.%d" % c[0]
             else:
                 m["reply_serial"] = rnd.choice((77, 1001, 1002, 1003))
         if ty == METHOD_CALL and rnd.random() < 0.2: m["no_reply"] = True
